@@ -7528,3 +7528,66 @@ mod tests {
         assert!(dt.validate().is_ok());
     }
 }
+
+/// Verification-only re-exports of the private batch ordering / dedup helpers
+/// (compiled only with the `verif-hooks` feature; not part of the public API).
+#[cfg(feature = "verif-hooks")]
+#[doc(hidden)]
+pub mod verif_hooks {
+    use super::{
+        CoordinateScalar, DataType, HashGridIndex, InsertionOrderStrategy, Vertex,
+        dedup_vertices_epsilon_hash_grid, dedup_vertices_epsilon_n2,
+        dedup_vertices_epsilon_quantized, dedup_vertices_exact_hash_grid,
+        dedup_vertices_exact_sorted, order_vertices_by_strategy,
+    };
+
+    /// `order_vertices_by_strategy`
+    pub fn order_vertices<T: CoordinateScalar, U: DataType, const D: usize>(
+        vertices: Vec<Vertex<T, U, D>>,
+        strategy: InsertionOrderStrategy,
+    ) -> Vec<Vertex<T, U, D>> {
+        order_vertices_by_strategy(vertices, strategy)
+    }
+
+    /// `dedup_vertices_exact_sorted`
+    pub fn dedup_exact_sorted<T: CoordinateScalar, U: DataType, const D: usize>(
+        vertices: Vec<Vertex<T, U, D>>,
+    ) -> Vec<Vertex<T, U, D>> {
+        dedup_vertices_exact_sorted(vertices)
+    }
+
+    /// `dedup_vertices_exact_hash_grid` on a fresh grid of the given cell size
+    pub fn dedup_exact_grid<T: CoordinateScalar, U: DataType, const D: usize>(
+        vertices: Vec<Vertex<T, U, D>>,
+        cell_size: T,
+    ) -> Vec<Vertex<T, U, D>> {
+        let mut grid: HashGridIndex<T, D, usize> = HashGridIndex::new(cell_size);
+        dedup_vertices_exact_hash_grid(vertices, &mut grid)
+    }
+
+    /// `dedup_vertices_epsilon_n2`
+    pub fn dedup_eps_n2<T: CoordinateScalar, U: DataType, const D: usize>(
+        vertices: Vec<Vertex<T, U, D>>,
+        epsilon: T,
+    ) -> Vec<Vertex<T, U, D>> {
+        dedup_vertices_epsilon_n2(vertices, epsilon)
+    }
+
+    /// `dedup_vertices_epsilon_quantized`
+    pub fn dedup_eps_quantized<T: CoordinateScalar, U: DataType, const D: usize>(
+        vertices: Vec<Vertex<T, U, D>>,
+        epsilon: T,
+    ) -> Vec<Vertex<T, U, D>> {
+        dedup_vertices_epsilon_quantized(vertices, epsilon)
+    }
+
+    /// `dedup_vertices_epsilon_hash_grid` on a fresh grid of the given cell size
+    pub fn dedup_eps_grid<T: CoordinateScalar, U: DataType, const D: usize>(
+        vertices: Vec<Vertex<T, U, D>>,
+        epsilon: T,
+        cell_size: T,
+    ) -> Vec<Vertex<T, U, D>> {
+        let mut grid: HashGridIndex<T, D, usize> = HashGridIndex::new(cell_size);
+        dedup_vertices_epsilon_hash_grid(vertices, epsilon, &mut grid)
+    }
+}
